@@ -57,6 +57,9 @@ class C09:
         rows = case["rows4"]
         flat = " ".join("%d %s" % (len(r), " ".join(map(str, r))) for r in rows)
         L += [("rsnap 3 %d %d %s" % (case["cls"], len(rows), flat)).rstrip(), "pres 3 %d %d" % (lo, hi)]
+        if case.get("ids", "int") == "int":
+            # the exact text (model: DynetxModel/Text.lean) and the graph parsed back from it; correspondence only
+            L += ["textrt 0 0 4 %d" % d, "dump 4"]
         return L
 
     @staticmethod
@@ -164,6 +167,8 @@ class C10:
         log = case["log"]
         L += [("rint 3 %d %d %s" % (case["cls"], len(log), " ".join(" ".join(map(str, r)) for r in log))).rstrip(),
               "pres 3 -2 60", "dump 3"]
+        if case.get("ids", "int") == "int":
+            L += ["textrt 1 0 4 %d" % d, "dump 4"]
         return L
 
     @staticmethod
